@@ -14,6 +14,10 @@
   CYCLECHECK / STATE  the zero-size-cycle search is a two-table DFS over *all* records and *all* their fields (no
             positional selection); the parser state has the three reviewed tables; the key of an unresolved
             reference is unresolved_names.len() | marker bit, pushed at one site
+  CYCLECHECK ... a child that is already done is not searched again (the search visits records, not paths)   (found F20)
+  REJECT   ... required attributes are exactly the specification's (decimal scale is optional, default 0: F21); only
+           record / enum / fixed define a name (F26)
+  FORMS    the `type` of a schema object can hold a reference, not only a built-in type name        (F28, known finding)
 It does NOT decide the resolved graph for every JSON spelling.
 """
 from ..lib import *
